@@ -740,6 +740,20 @@ func (c *vCase) opAdd(local bool, txs []*types.Transaction) {
 				replacedBy[old.id] = true
 				o.Count("replace:accepted")
 			}
+			if e == ErrReplaceUnderpriced && old != nil {
+				// spec re-implementation: the bump was met, so the replacement had to be accepted
+				th := new(big.Int).Add(big.NewInt(100), bump)
+				th.Mul(th, old.tx.GasPrice()).Div(th, big.NewInt(100))
+				if v.tx.GasPrice().Cmp(th) >= 0 && v.tx.GasPrice().Cmp(old.tx.GasPrice()) > 0 {
+					o.Fail(c.step, "replace-rule", fmt.Sprintf("acct=%d nonce=%d old_price=%s new_price=%s bump=%s rejected although the required bump is met", v.from, v.tx.Nonce(), old.tx.GasPrice(), v.tx.GasPrice(), bump))
+				}
+			}
+			if e == nil && v.tx.Nonce() == c.stateNonce(v.from) {
+				// an accepted tx at the sender's state nonce is executable: it must be offered right away
+				if now := find(post, v.from, v.tx.Nonce()); now == nil || now.id != v.id || post.status[v.id-1] != TxStatusPending {
+					o.Fail(c.step, "accepted-executable-not-pending", fmt.Sprintf("acct=%d nonce=%d id=%d accepted at the state nonce but not pending afterwards", v.from, v.tx.Nonce(), v.id))
+				}
+			}
 			if e == ErrReplaceUnderpriced {
 				if old == nil {
 					// the old one may have been evicted by the pool-full branch of this very add
